@@ -31,6 +31,14 @@ Abstractions (see `notes/C03.md`):
   (every complete block assembled, with its height), vote sets of earlier heights (lookups are by
   the current height, so they are unreachable for `step`, exactly like the discarded Go objects).
 
+Repairs the model follows (findings F36, F37; the earlier rules are kept for regression theorems in
+`KV/Proofs/CsOld.lean`): `enterNewRound` releases a lock that a polka of a round in
+`(lockedRound, round]` has overtaken (`releaseStale`: a round skip can carry the node over a round
+whose polka it already holds, `addVote`'s unlock test is only evaluated when a prevote is added);
+`enterNewRound` and `enterPrecommit` return in the commit step (votes of later rounds must not take
+a node out of the commit step: the part set of the committed block would be dropped and the commit
+forgotten).
+
 Not modelled: `LastCommit` (late precommits of height-1 while in `NewHeight`; with
 `IsSkipTimeoutCommit = false` they have no effect on the state machine), evidence, events, WAL.
 Unreachable `PanicSanity` checks (`enterPrevoteWait`/`enterPrecommitWait` without +2/3 any,
@@ -293,6 +301,7 @@ def doPrecommit (cfg : Config) (r : Nat) (σ : State) : State :=
 /-- `cs.enterPrecommit` -/
 def enterPrecommit (cfg : Config) (h r : Nat) (σ : State) : State :=
   if σ.height ≠ h ∨ r < σ.round ∨ (σ.round = r ∧ Step.precommit.toNat ≤ σ.step.toNat) then σ
+  else if σ.step = .commit then σ   -- F37 fix: decided; a precommit majority of a later round does not move us
   else { doPrecommit cfg r σ with round := r, step := .precommit }
 
 /-- `cs.enterPrecommitWait` (the step is not changed) -/
@@ -378,11 +387,31 @@ def newRoundPrep (cfg : Config) (r : Nat) (σ : State) : State :=
   let σ2 := if r = 1 then σ1 else { σ1 with proposal := none, pblock := none, parts := none }
   { setRound (n cfg) (r + 1) σ2 with ttp := false }
 
+/-- `enterNewRound` (F36 fix), the test of the scan: some round in `(lockedRound, round]` of the
+current height has +2/3 prevotes for a value other than block `b` (nil included) in the node's
+own vote sets (`cs.Votes.Prevotes(r) == nil` → `continue`: a missing round has no slots, hence no
+majority) -/
+def stalePolka (cfg : Config) (σ : State) (b : Nat) : Bool :=
+  (List.range (σ.round + 1)).any (fun r' =>
+    decide (σ.lockedRound < r') &&
+      (match maj23 cfg.powers (σ.slots .prevote σ.height r') with
+       | some x => x != some b
+       | none => false))
+
+/-- `enterNewRound` (F36 fix): "Unlocking because of POL seen before a round skip" — release a lock
+that a polka of a later round (up to the round just entered) has overtaken; `addVote`'s unlock test
+`LockedRound < vote.Round <= cs.Round` was false when that polka completed -/
+def releaseStale (cfg : Config) (σ : State) : State :=
+  match σ.locked with
+  | some lb => if stalePolka cfg σ lb.id then unlock σ else σ
+  | none => σ
+
 /-- `cs.enterNewRound` -/
 def enterNewRound (cfg : Config) (nb : Option Nat) (h r : Nat) (σ : State) : State :=
   if σ.height ≠ h ∨ r < σ.round ∨ (σ.round = r ∧ σ.step ≠ .newHeight) then σ
+  else if σ.step = .commit then σ   -- F37 fix: the height is decided, votes of later rounds do not move us
   else
-    let σ3 := newRoundPrep cfg r σ
+    let σ3 := releaseStale cfg (newRoundPrep cfg r σ)
     if cfg.waitTxs && r == 1 then
       if cfg.emptyInterval then schedule h r .newRound σ3 else σ3
     else enterPropose cfg nb h r σ3
